@@ -351,6 +351,62 @@ def fam_nested_twice(k):
     return libs
 
 
+# ------------------------------------------------------------------ per-type record alphabet
+# For ONE shared true name every library's own record is one of
+#   absent | GF (global, fully defined) | G- (global, not fully defined)
+#          | -F (not global, fully defined) | -- (neither)
+# realised by real interrogate runs:
+#   enum Color   GF: published in a local header          G-: the same + `ignoretype Color`
+#                -F: only in a foreign header, used in a published signature
+#                --: the same + `ignoretype Color`
+#   class T      GF: defined in a local header            G-: the same + `ignoretype T`
+#                --: forward declaration, used through a pointer
+#                (-F does not exist for classes: a class that gets fully defined is global)
+REC_STATES = {"enum": ("absent", "GF", "G-", "-F", "--"), "class": ("absent", "GF", "G-", "--")}
+REC_SHARED = {"enum": "Color", "class": "T"}
+REC_ENUM_H = guard("e.h", "__begin_publish\n/// shared enum\nenum Color { C_red, C_green = 4, C_blue };\n__end_publish\n")
+REC_CLASS_H = guard("t.h", "/// shared class\nclass T {\n__published:\n  T();\n  int weight() const;\n};\n")
+
+
+def rec_tag(letter, kind, state):
+    return "%s%d" % (letter, REC_STATES[kind].index(state))
+
+
+def fam_records(kind):
+    """one library per (letter a/b/c, record state); any triple (a?, b?, c?) is a library
+    set in which the shared name has exactly the chosen records."""
+    libs = []
+    for letter in "abc":
+        for state in REC_STATES[kind]:
+            x = rec_tag(letter, kind, state)
+            body = unique_block(x)
+            files, args, nfiles = {}, [], None
+            if kind == "enum":
+                use = "__begin_publish\nColor pick_%s(Color c);\n__end_publish\n" % x
+                if state in ("GF", "G-"):
+                    files["e.h"] = REC_ENUM_H
+                    args.append("e.h")
+                    body += '#include "e.h"\n' + use
+                elif state in ("-F", "--"):
+                    files["../inc/e.h"] = REC_ENUM_H
+                    body += '#include "inc/e.h"\n' + use
+                if state in ("G-", "--"):
+                    nfiles = {"u%s.N" % x: "ignoretype Color\n"}
+            else:
+                use = "__begin_publish\nint use_%s(T *p);\n__end_publish\n" % x
+                if state in ("GF", "G-"):
+                    files["t.h"] = REC_CLASS_H
+                    args.append("t.h")
+                    body += '#include "t.h"\n' + use
+                elif state == "--":
+                    body += "class T;\n" + use
+                if state == "G-":
+                    nfiles = {"u%s.N" % x: "ignoretype T\n"}
+            files["u%s.h" % x] = body
+            libs.append(LibSpec(x, files, args + ["u%s.h" % x], nfiles=nfiles))
+    return libs
+
+
 FAMILIES = [
     ("ref", fam_ref), ("fwd", fam_fwd), ("same", fam_same), ("diff", fam_diff),
     ("force", fam_force), ("global", fam_global), ("tpl", fam_tpl), ("kinds", fam_kinds),
@@ -360,7 +416,8 @@ FAMILIES = [
 
 SHARED_PROBE = {"ref": "S", "fwd": "Fwd", "same": "C", "diff": "C", "force": "S", "global": "P",
                 "tpl": "Box< int >", "kinds": "Multi", "chain": "A", "enumdiff": "Color",
-                "twoshared": "C", "nestedtwice": "S::Inner"}
+                "twoshared": "C", "nestedtwice": "S::Inner",
+                "rec-enum": "Color", "rec-class": "T"}
 
 
 def build_family(b, root, name, libs):
@@ -372,7 +429,9 @@ def build_family(b, root, name, libs):
         d = os.path.join(froot, L.dir)
         os.makedirs(d, exist_ok=True)
         for fn, text in list(L.files.items()) + list(L.nfiles.items()):
-            with open(os.path.join(d, fn), "w") as f:
+            path = os.path.normpath(os.path.join(d, fn))
+            os.makedirs(os.path.dirname(path), exist_ok=True)
+            with open(path, "w") as f:
                 f.write(text)
     for L in libs:
         d = os.path.join(froot, L.dir)
